@@ -43,7 +43,7 @@ def hex (bs : List Nat) : String :=
 structure Ghost where
   dead : Bool := false
   hasWindow : Bool := false
-  view : Spec.View := { lastSeq := 255, window := 0, unackedRx := 0, lastSent := 255, outstanding := 0, remaining := 0 }
+  view : Spec.View := { lastSeq := 255, window := 0, unackedRx := 0, lastSent := 255, outstanding := 0, remaining := 0, segSize := 0 }
   reasm : Spec.Reasm := {}
   submitted : List (List Nat) := []
   fetched : List (List Nat) := []
@@ -130,7 +130,7 @@ def onRx (g : Ghost) (seg : List Nat) (implOk : Bool) (now : Nat) : Ghost × Opt
           | .ok r =>
             ({ g with hasWindow := true, reasm := {}, fetched := [], fetchedCaps := [],
                       view := { lastSeq := 0, window := r.windowSize, unackedRx := 0, lastSent := 255,
-                                outstanding := 0, remaining := 0 } }, none)
+                                outstanding := 0, remaining := 0, segSize := 0 } }, none)
           | .error _ => (g, none)
         else
           -- responder: the negotiated window is learnt from the response it emits (`onTx`); until
@@ -138,12 +138,14 @@ def onRx (g : Ghost) (seg : List Nat) (implOk : Bool) (now : Nat) : Ghost × Opt
           let rw := match decodeReq payload with | .ok q => q.windowSize | .error _ => 0
           ({ g with hasWindow := false, reasm := {}, fetched := [], fetchedCaps := [],
                     view := { lastSeq := 255, window := rw, unackedRx := 0, lastSent := 255,
-                              outstanding := 0, remaining := 0 } }, none)
+                              outstanding := 0, remaining := 0, segSize := 0 } }, none)
       else (g, none)
     else
-      let must := Spec.mustReject g.view h payload
+      -- the negotiated segment size is the one the implementation reports (field 0 of its state)
+      let must := g.impl.length == 14 &&
+        Spec.mustReject { g.view with segSize := g.impl.getD 0 0 } h payload
       if implOk then
-        let why := if must then some s!"accepted a protocol-violating segment (seq={h.seqNum} ack={h.getAck} beg={h.beg} fin={h.fin} len={h.msgLen} payload={payload.length} view={repr g.view})" else none
+        let why := if must then some s!"accepted a protocol-violating segment (seq={h.seqNum} ack={h.getAck} beg={h.beg} cont={h.cont} fin={h.fin} mgmt={h.mgmt} len={h.msgLen} payload={payload.length} view={repr g.view})" else none
         let v := g.view
         let remBase := if h.beg then h.msgLen else v.remaining
         let v' : Spec.View := { v with
